@@ -56,8 +56,8 @@ Section P.
     (forall w, visit rc rm fo st s v <> Panic w) /\
     accepts (visit rc rm fo st s v) = satb rc rm fo (md_of st) s v.
   Proof.
-    unfold sv_guard. intros H. apply andb_prop in H as [H Hd]. apply andb_prop in H as [Hg Hv].
-    destruct (main_visit rc rm fo st s v Hg Hv Hd) as [Hp Ha].
+    unfold sv_guard. intros H. apply andb_prop in H as [Hg Hv].
+    destruct (main_visit rc rm fo st s v Hg Hv) as [Hp Ha].
     repeat split; try exact Ha; try (intros w E || intros E); rewrite E in Hp; discriminate.
   Qed.
 
